@@ -367,7 +367,7 @@ Definition step (s : state) (e : event) : option state :=
     match take_first (item_on p) (fhand s) with
     | Some (q, rest) =>
       if q_loaded q then None
-      else if ok then Some (set_buf s (queue s) (rest ++ [new_item (q_chunk q) true (q_saved q)]) (window s) (leftovers s) (unacked s)
+      else if ok then Some (set_buf s (queue s) (new_item (q_chunk q) true (q_saved q) :: rest) (window s) (leftovers s) (unacked s)
                               (files s) (acked s) (dropped s))
       else Some (set_buf s (queue s) rest (window s) (leftovers s) (unacked s) (files s) (acked s) (dropped s ++ [q_chunk q]))
     | None => None
